@@ -1,0 +1,15 @@
+//go:build verif
+
+// Lemma functions for the govc verifier (/verif): real Go code that composes functions of this package the way
+// the node does, compiled only under the build tag "verif" and never called. Their contracts (in
+// zz_verif_contracts.go) state what the composition must achieve.
+package account
+
+// lemmaSetNonceUndo is a call frame that sets the nonce of an account object and is then reverted: what
+// RevertToSnapshot does for a frame whose journal holds that one entry.
+func lemmaSetNonceUndo(ao *accountObject, nonce uint64) {
+	db := ao.db
+	k := len(db.transitions)
+	ao.SetNonce(nonce)
+	db.transitions[k].(nonceChange).undo(db)
+}
